@@ -280,6 +280,34 @@ func voProject(o *Options, tmp string) (map[string]interface{}, string) {
 		m["tmux"] = map[string]interface{}{"on": true, "pos": voPos[o.Tmux.position], "w": w, "h": h, "border": o.Tmux.border}
 		m["popup"] = o.Tmux.index >= o.Height.index
 	}
+	// --margin / --padding: the four sizeSpecs (top, right, bottom, left); a size is whole + tenths (percentages may
+	// carry a fraction).  Label positions: column + bottom flag of each of the five labels.
+	msz := func(sp [4]sizeSpec) ([]interface{}, bool) {
+		out := []interface{}{}
+		for _, s := range sp {
+			t := s.size * 10
+			if !(t >= 0 && t < 1e9) || t != float64(int(t)) {
+				return nil, false
+			}
+			out = append(out, map[string]interface{}{"size": int(t) / 10, "frac": int(t) % 10, "percent": s.percent})
+		}
+		return out, true
+	}
+	var okm, okp bool
+	if m["margin"], okm = msz(o.Margin); !okm {
+		return nil, fmt.Sprintf("margin is not a multiple of 0.1: %v", o.Margin)
+	}
+	if m["padding"], okp = msz(o.Padding); !okp {
+		return nil, fmt.Sprintf("padding is not a multiple of 0.1: %v", o.Padding)
+	}
+	lpos := func(l labelOpts) map[string]interface{} {
+		return map[string]interface{}{"col": l.column, "bottom": l.bottom}
+	}
+	m["blpos"] = lpos(o.BorderLabel)
+	m["llpos"] = lpos(o.ListLabel)
+	m["ilpos"] = lpos(o.InputLabel)
+	m["hlpos"] = lpos(o.HeaderLabel)
+	m["plpos"] = lpos(o.PreviewLabel)
 	return m, ""
 }
 
